@@ -103,7 +103,34 @@ func runCheck(repo, verif, prop, tier string) int {
 		need = 2
 	}
 	allFuncs := prop == "C11" || prop == "C17"
-	reps := generate(p, func(c *Contract) bool { return allFuncs || hasProp(c, prop) })
+	// besides the functions tagged with the property, every function under contract that is defined in one of the files the
+	// property is anchored in (properties.jsonl) belongs to its check: a change in those files that breaks the property often
+	// breaks it through a function whose contract was written with another property in mind
+	anchored := anchorFiles(verif, prop)
+	inAnchor := func(c *Contract) bool {
+		if len(anchored) == 0 || c.Kind != "func" {
+			return false
+		}
+		fn := p.lookupFunc(c.Pkg, c.Func)
+		if fn == nil {
+			return false
+		}
+		file := p.Fset.Position(fn.Pos()).Filename
+		for _, a := range anchored {
+			if strings.HasSuffix(file, "/"+a) {
+				return true
+			}
+		}
+		return false
+	}
+	reps := generate(p, func(c *Contract) bool { return allFuncs || hasProp(c, prop) || inAnchor(c) })
+	for _, r := range reps {
+		for _, o := range r.Obls {
+			if !allFuncs && !contains(o.Props, prop) {
+				o.Props = append(append([]string{}, o.Props...), prop)
+			}
+		}
+	}
 	if allFuncs {
 		// immutability / sharing: the frame and provenance obligations of every function under contract belong to these properties
 		for _, r := range reps {
@@ -467,6 +494,29 @@ func setKnownRacClauses(known []knownFinding) {
 			knownRacClauses[strings.TrimSuffix(kf.Obligation, "#bounded-contract-search")+"|"+kf.Clause] = true
 		}
 	}
+}
+
+// anchorFiles reads the files a property is anchored in from <verif>/properties.jsonl.
+func anchorFiles(verif, prop string) []string {
+	fh, err := os.Open(filepath.Join(verif, "properties.jsonl"))
+	if err != nil {
+		return nil
+	}
+	defer fh.Close()
+	sc := bufio.NewScanner(fh)
+	sc.Buffer(make([]byte, 1<<20), 1<<24)
+	for sc.Scan() {
+		var d struct {
+			ID      string `json:"id"`
+			Anchors struct {
+				Files []string `json:"files"`
+			} `json:"anchors"`
+		}
+		if json.Unmarshal(sc.Bytes(), &d) == nil && d.ID == prop {
+			return d.Anchors.Files
+		}
+	}
+	return nil
 }
 
 // baseKey strips the split-case suffix of a report key.
